@@ -86,3 +86,89 @@ def document(rng, avoid=()):
     body = ''.join(element(rng, 0, avoid) for _ in range(rng.choice([1, 2, 3])))
     html = ('<style>@page{size:%dpx %dpx;margin:%s} html{font-family:weasyprint;font-size:10px}</style>%s' % (w, h, m, body))
     return html, rng.choice(OPTIONS)
+
+
+# ------------------------------------------------------------------------------------------------ HTML features
+PNG1 = ('data:image/png;base64,iVBORw0KGgoAAAANSUhEUgAAAAIAAAACCAYAAABytg0kAAAAEklEQVQImWNgYGD4z8DAwMAAAAYAAf8S8K0AAAAA'
+        'SUVORK5CYII=')
+SVG1 = "data:image/svg+xml,<svg xmlns='http://www.w3.org/2000/svg' width='10' height='5'><rect width='10' height='5'/></svg>"
+SPANS = ['0', '1', '2', '3', '5', '100', '-1', 'x']
+
+
+def cell_content(rng, depth):
+    r = rng.random()
+    if r < 0.45:
+        return rng.choice(['a', 'abc def', 'a<br>b<br>c', '', ' ', 'abcdefghabcdefgh'])
+    if r < 0.6:
+        return '<p style="%s">abc def gh</p>' % style(rng, depth + 1, avoid=('none',))
+    if r < 0.7 and depth < 2:
+        return table(rng, depth + 1)
+    if r < 0.8:
+        return '<img src="%s" style="%s">' % (rng.choice([PNG1, SVG1, 'missing.png']), style(rng, depth + 1))
+    if r < 0.9:
+        return rng.choice(['<input value="x">', '<input type=checkbox checked>', '<select><option>a<option selected>b</select>',
+                           '<textarea>t\nu</textarea>', '<button>b</button>'])
+    return '<ul><li>a<li value=5>b</ul>'
+
+
+def table(rng, depth=0):
+    ncols = rng.choice([1, 2, 3, 4])
+    nrows = rng.choice([1, 2, 3, 5])
+
+    def cell(tag='td'):
+        attrs = ''
+        if rng.random() < 0.35:
+            attrs += ' rowspan=%s' % rng.choice(SPANS)
+        if rng.random() < 0.3:
+            attrs += ' colspan=%s' % rng.choice(SPANS)
+        if rng.random() < 0.25:
+            attrs += ' style="%s"' % style(rng, depth + 1, avoid=('none',))
+        return '<%s%s>%s</%s>' % (tag, attrs, cell_content(rng, depth), tag)
+
+    def rows(n, tag='td'):
+        return ''.join('<tr%s>%s</tr>' % (' style="%s"' % style(rng, depth + 1) if rng.random() < 0.15 else '',
+                                         ''.join(cell(tag) for _ in range(rng.choice([0, 1, ncols, ncols, ncols + 1]))))
+                       for _ in range(n))
+    parts = []
+    if rng.random() < 0.3:
+        parts.append('<caption style="caption-side:%s">cap</caption>' % rng.choice(['top', 'bottom']))
+    if rng.random() < 0.3:
+        parts.append('<colgroup span=%s style="width:%s"></colgroup><col span=%s style="width:%s">' % (
+            rng.choice(SPANS), rng.choice(LENGTHS), rng.choice(SPANS), rng.choice(LENGTHS)))
+    if rng.random() < 0.4:
+        parts.append('<thead>%s</thead>' % rows(rng.choice([1, 2]), 'th'))
+    if rng.random() < 0.3:
+        parts.append('<tfoot>%s</tfoot>' % rows(1))
+    for _ in range(rng.choice([1, 1, 2])):
+        parts.append('<tbody>%s</tbody>' % rows(nrows))
+    rng.shuffle(parts)
+    css = ['border-collapse:' + rng.choice(['collapse', 'separate']), 'table-layout:' + rng.choice(['auto', 'fixed'])]
+    if rng.random() < 0.5:
+        css.append('width:' + rng.choice(LENGTHS))
+    if rng.random() < 0.3:
+        css.append('border-spacing:' + rng.choice(['0', '2px', '5px 1px', '50px']))
+    if rng.random() < 0.3:
+        css.append('border:' + rng.choice(['1px solid', '5px double', '3px groove']))
+    if rng.random() < 0.15:
+        css.append('direction:rtl')
+    return '<table style="%s">%s</table>' % (';'.join(css), ''.join(parts))
+
+
+def html_document(rng):
+    """real HTML elements with their attributes: tables (row/col spans of every size, col/colgroup spans, head/foot/
+    caption in any order, nested tables, both border models and layouts), images, form controls, lists - on small pages"""
+    w = rng.choice([30, 100, 200, 500])
+    h = rng.choice([10, 30, 60, 100, 200])
+    m = rng.choice(['0', '1px', '10px'])
+    parts = []
+    for _ in range(rng.choice([1, 2, 3])):
+        r = rng.random()
+        if r < 0.7:
+            parts.append(table(rng))
+        elif r < 0.85:
+            parts.append(element(rng, 1, ()))
+        else:
+            parts.append('<ol start=%s reversed>%s</ol>' % (rng.choice(['1', '-3', '100', 'x']), '<li>a<li value=2>b<li>c'))
+    html = ('<style>@page{size:%dpx %dpx;margin:%s} html{font-family:weasyprint;font-size:10px;line-height:10px}'
+            'td,th{padding:%s}</style>%s' % (w, h, m, rng.choice(['0', '1px', '5px']), ''.join(parts)))
+    return html, rng.choice(OPTIONS)
